@@ -213,6 +213,57 @@ fn c11() -> (bool, String, String) {
     (false, "null".into(), "gates {0,1,2,3,5,8}: size law, every strict prefix, round trip, verdict".into())
 }
 
+
+// ---- C05: a proof made for one statement / context, checked against neighbouring statements ----
+fn c05_circuit<CS: ConstraintSystem<Fr>>(cs: &mut CS, vars: &[Variable<Fr>], a: usize, b: usize, c: u64) {
+    let (_, _, o) = cs.multiply(vars[a].into(), vars[b].into());
+    cs.constrain(o - Fr::from(c));
+}
+fn c05(replay: Option<usize>) -> (bool, String, String) {
+    let pc = PedersenGens::<Affine>::default();
+    let bp = BulletproofGens::<Affine>::new(8, 1);
+    let mut r = rng(5);
+    let (b0, b1) = (Fr::rand(&mut r), Fr::rand(&mut r));
+    let (V0, V1) = (pc.commit(Fr::from(3u64), b0), pc.commit(Fr::from(5u64), b1));
+    let proof = {
+        let mut t = Transcript::new(b"ctx-A");
+        let mut p = Prover::new(&pc, &mut t);
+        let (_, x) = p.commit(Fr::from(3u64), b0);
+        let (_, y) = p.commit(Fr::from(5u64), b1);
+        c05_circuit(&mut p, &[x, y], 0, 1, 15);
+        match p.prove(&mut r, &bp) { Ok(p) => p, Err(_) => return (false, "null".into(), "honest proving failed (not a C05 matter)".into()) }
+    };
+    let Vx = pc.commit(Fr::from(5u64), Fr::rand(&mut r));
+    let pc2 = PedersenGens::<Affine> { B: pc.B_blinding, B_blinding: pc.B };
+    // (description, label, extra prefix message, commitments, wiring a, b, constant, swapped bases)
+    let cases: Vec<(&str, &'static [u8], bool, Vec<Affine>, usize, usize, u64, bool)> = vec![
+        ("the prover's own statement (must be accepted)", b"ctx-A", false, vec![V0, V1], 0, 1, 15, false),
+        ("different transcript label", b"ctx-B", false, vec![V0, V1], 0, 1, 15, false),
+        ("extra message absorbed before the verifier was created", b"ctx-A", true, vec![V0, V1], 0, 1, 15, false),
+        ("commitment list [V0,V0,V1], circuit on entries 0 and 2", b"ctx-A", false, vec![V0, V0, V1], 0, 2, 15, false),
+        ("commitment list [V0,V1,V0,V1], circuit on entries 0 and 3", b"ctx-A", false, vec![V0, V1, V0, V1], 0, 3, 15, false),
+        ("commitment list [V0,V1,V1] (one repeated commitment appended)", b"ctx-A", false, vec![V0, V1, V1], 0, 1, 15, false),
+        ("commitment list [V0,V1,V'] (one fresh commitment appended)", b"ctx-A", false, vec![V0, V1, Vx], 0, 1, 15, false),
+        ("commitment list [V1,V0], circuit on entries 1 and 0", b"ctx-A", false, vec![V1, V0], 1, 0, 15, false),
+        ("second commitment replaced by another commitment to the same value", b"ctx-A", false, vec![V0, Vx], 0, 1, 15, false),
+        ("commitment list [V0] only, circuit squares it", b"ctx-A", false, vec![V0], 0, 0, 15, false),
+        ("public constant 16 instead of 15", b"ctx-A", false, vec![V0, V1], 0, 1, 16, false),
+        ("Pedersen bases swapped", b"ctx-A", false, vec![V0, V1], 0, 1, 15, true),
+    ];
+    for (i, (what, label, prefix, vs, a, b, c, swapped)) in cases.iter().enumerate() {
+        if let Some(k) = replay { if k != i { continue; } }
+        let mut t = Transcript::new(label);
+        if *prefix { t.append_message(b"note", b"x"); }
+        let mut v = Verifier::<Affine, _>::new(&mut t);
+        let vars: Vec<Variable<Fr>> = vs.iter().map(|V| v.commit(*V)).collect();
+        c05_circuit(&mut v, &vars, *a, *b, *c);
+        let ok = v.verify(&proof, if *swapped { &pc2 } else { &pc }, &bp).is_ok();
+        if i == 0 && !ok { return (false, "null".into(), "the honest proof is rejected for its own statement (not a C05 matter)".into()); }
+        if i > 0 && ok { return (true, format!("{}", i), format!("a proof for commitments [V0,V1], circuit v0*v1 = 15, label ctx-A is ACCEPTED for a different statement: {}", what)); }
+    }
+    (false, "null".into(), "one honest proof against 11 neighbouring statements (label, prefix, repeated / appended / permuted / replaced / dropped commitments, constant, bases): all rejected".into())
+}
+
 // ---- C13 ----
 fn c13() -> (bool, String, String) {
     let dflt = PedersenGens::<Affine>::default();
@@ -220,17 +271,25 @@ fn c13() -> (bool, String, String) {
     // default bases and bases where B is not the group generator
     for pc in [dflt, PedersenGens::<Affine> { B: (dflt.B.mul_bigint(Fr::from(7u64).into_bigint()) + dflt.B_blinding.mul_bigint(Fr::from(11u64).into_bigint())).into_affine(), B_blinding: dflt.B_blinding }] {
     let big = Fr::from(u64::MAX) * Fr::from(u64::MAX) + Fr::one();
-    let vals = [Fr::zero(), Fr::one(), -Fr::one(), big, Fr::rand(&mut r), Fr::rand(&mut r)];
+    let mut vals = vec![Fr::zero(), Fr::one(), -Fr::one(), big, Fr::rand(&mut r), Fr::rand(&mut r)];
+    // every zero / non-zero pattern of the four 64-bit limbs (2^64, 2^128 + 5, 2^192 + 7*2^64, ...): representations with
+    // holes are where limb-wise shortcuts go wrong
+    let two64 = Fr::from(u64::MAX) + Fr::one();
+    for mask in 1u32..16 {
+        let mut v = Fr::zero(); let mut w = Fr::one();
+        for i in 0..4 { if mask >> i & 1 == 1 { v += w * Fr::from(5u64 + 2 * i as u64); } w *= two64; }
+        vals.push(v);
+    }
     for (i, v) in vals.iter().enumerate() { for (j, b) in vals.iter().enumerate() {
         let want = (pc.B.mul_bigint(v.into_bigint()) + pc.B_blinding.mul_bigint(b.into_bigint())).into_affine();
-        if pc.commit(*v, *b) != want { return (true, format!("[{},{}]", i, j), "commit(v,r) != v*B + r*B~ (indices into [0,1,-1,2^128-ish,rand,rand])".into()); }
+        if pc.commit(*v, *b) != want { return (true, format!("[{},{}]", i, j), "commit(v,r) != v*B + r*B~ (indices into [0,1,-1,2^128-ish,rand,rand, then the 15 limb patterns sum_{i in mask} (5+2i)*2^(64i), mask = index-5])".into()); }
         let mut t = Transcript::new(b"x");
         let mut p = Prover::new(&pc, &mut t);
         let (c, _) = p.commit(*v, *b);
         if c != want { return (true, format!("[{},{}]", i, j), "Prover::commit returned a different point".into()); }
     } }
     }
-    (false, "null".into(), "36 (v,r) pairs incl. 0, 1, -1, > 2^64, for the default bases and for B = 7G + 11B~".into())
+    (false, "null".into(), "441 (v,r) pairs incl. 0, 1, -1, > 2^64 and all 15 zero/non-zero patterns of the four 64-bit limbs, for the default bases and for B = 7G + 11B~".into())
 }
 
 // ---- C15: random expression trees ----
@@ -504,6 +563,7 @@ fn main() {
     let (found, input, observed) = match prop.as_str() {
         "C01" => c01(rep.filter(|v| v.len() == 3).map(|v| (v[0] as usize, v[1] as usize, v[2] as usize))),
         "C02" => c02(rep.filter(|v| v.len() == 5).map(|v| (v[0] as usize, v[1] as usize, v[2] as usize, v[3] as usize, v[4] as usize))),
+        "C05" => c05(rep.and_then(|v| v.first().map(|x| *x as usize))),
         "C07" => c07(),
         "C12" => c12(),
         "C08" => c08(rep.filter(|v| v.len() == 3).map(|v| (v[0] as usize, v[1] as usize, v[2] as usize))),
